@@ -153,6 +153,10 @@ def body(ctx: Ctx):
                             for c in cases])
     orig_popen = sp.subprocess.Popen
     sp.subprocess.Popen = PopenRecorder
+    from .common import OsProxy
+    real_os = getattr(sp, "os", None)
+    if real_os is not None:
+        sp.os = OsProxy()           # fix 24eb13b: the spawner creates the working directory; recorded, not done
     orig_rt = ish.RaisingThread
 
     class RecThread(orig_rt):
@@ -183,6 +187,8 @@ def body(ctx: Ctx):
                     break
     finally:
         sp.subprocess.Popen = orig_popen
+        if real_os is not None:
+            sp.os = real_os
         ish.RaisingThread = orig_rt
     ctx.oblige("correspondence: keywords, slots and Popen(argv, cwd) of every call of every sequence = Res.dispatchAll / Res.launch; "
                "executor-level dictionary unchanged", not diffs, f"{len(cases)} sequences")
